@@ -386,17 +386,26 @@ func (mc *MemoryChannel) copyAofFrom(seg *memorySegment, offset int64, pipew pip
 		if err == nil {
 			continue
 		}
-		if errors.Is(err, io.EOF) {
-			next := mc.nextAofSegment(current)
-			if next == nil {
+		// The segment is closed and read to its end. A segment the writer was
+		// still appending to when its source failed is closed WITH the source's
+		// error (finishAof); its bytes are as valid as any other's and stay in
+		// the index. The error belongs to the writer that died, not to the data:
+		// once a new writer has continued behind it the reader follows into the
+		// successor like after a rotation. Only a reader at the tail of the dead
+		// writer's last segment (no successor yet) ends with that error.
+		if !errors.Is(err, io.EOF) && !current.blob.isClosed() {
+			return err
+		}
+		next := mc.nextAofSegment(current)
+		if next == nil {
+			if errors.Is(err, io.EOF) {
 				return nil
 			}
-			next.acquire()
-			current.release()
-			current = next
-			continue
+			return err
 		}
-		return err
+		next.acquire()
+		current.release()
+		current = next
 	}
 }
 
